@@ -161,6 +161,11 @@ impl Module {
     }
   }
 
+  /// The class of this module's import objects
+  pub fn class(&self) -> ObjRef<Class> {
+    self.module_class
+  }
+
   /// Add export a new symbol from this module. Exported names must be unique
   pub fn export_symbol(&mut self, name: LyStr) -> SymbolExportResult {
     if !self.symbols_by_name.contains_key(&name) {
